@@ -12,22 +12,10 @@ TRUSTED_COMMON = [
     "gcc -O0 build of the current tree, glibc 2.36, x86-64 Linux page protection",
 ]
 
-FAMILIES = {
-    "copy": lambda rng, tier: gens.gen_copy(rng, tier),
-    "memcpy": lambda rng, tier: gens.gen_memcpy(rng, tier),
-    "memset": lambda rng, tier: gens.gen_memset(rng, tier),
-}
-
-PLAN = {
-    "C01": dict(fams=["copy", "memcpy", "memset"]),
-    "C02": dict(fams=["copy", "memcpy", "memset"]),
-    "C03": dict(fams=["copy"]),
-    "C04": dict(fams=["copy", "memcpy"]),
-    "C05": dict(fams=["copy", "memcpy", "memset"]),
-    "C06": dict(fams=["copy", "memcpy", "memset"]),
-    "C07": dict(fams=["copy", "memcpy"]),
-    "C08": dict(fams=["copy"]),
-}
+import families
+FAMS = families.load_all()
+GENERIC_PROPS = ["C01", "C02", "C03", "C04", "C05", "C06", "C07", "C08", "C10"]
+PLAN = {pid: dict(fams=[n for n, f in FAMS.items() if pid in f["props"]]) for pid in GENERIC_PROPS}
 
 
 def run_generic(pid, tier, seed, replay=None):
@@ -44,15 +32,17 @@ def run_generic(pid, tier, seed, replay=None):
     forb = orch.forbidden_tokens()
     impl = Impl()
     known = orch.load_known()
-    oracle_fns = [oracles.GENERIC[pid]]
+    base_oracle = oracles.GENERIC.get(pid)
     if replay:
         return do_replay(pid, replay, impl)
     for slack in (1, 0):
         rng = random.Random(seed * 1000003 + slack)
         for fam in plan["fams"]:
-            ops = FAMILIES[fam](rng, tier)
+            ops = FAMS[fam]["gen"](rng, tier)
             for o in ops:
-                refs.annotate(o, slack)
+                o.meta["slack"] = slack
+                FAMS[fam]["annotate"](o)
+            oracle_fns = ([base_oracle] if base_oracle else []) + ([FAMS[fam]["oracles"][pid]] if pid in FAMS[fam].get("oracles", {}) else [])
             t = time.time()
             c, m = orch.run_pair(impl, ops, slack)
             if not drv_ok:
@@ -88,6 +78,9 @@ def run(pid, tier, seed, replay=None):
     if pid == "C13":
         import p13
         return p13.run(tier, seed, replay)
+    if pid == "C19":
+        import p19
+        return p19.run(tier, seed, replay)
     if pid in PLAN:
         return run_generic(pid, tier, seed, replay)
     print("unknown property", pid)
